@@ -241,7 +241,7 @@ pub fn run(ctx: &Ctx) -> Report {
          non-trivial = an action with >=1 header filter, >=1 body filter and a status update; distinct by case hash",
     );
     rep.assume("actions are those the library itself builds (the statement quantifies over actions the library can build)");
-    rep.add(run_part(ctx, "roundtrip", ctx.cases(25_000, 1_000_000), strategy, check, &[]));
+    rep.add(run_part(ctx, "roundtrip", ctx.cases(100_000, 3_000_000), strategy, check, &[]));
     rep
 }
 
